@@ -51,16 +51,16 @@ func relayout(r *rand.Rand, src string) (string, []string) {
 					out += "\n"
 					ops = append(ops, "blank-line")
 				case 1:
-					out += "  // only a comment\n"
+					out += "  //" + lineCommentBodies[r.Intn(len(lineCommentBodies))] + "\n"
 					ops = append(ops, "comment-line")
 				case 2:
-					out += "\t/* block */\n \n"
+					out += "\t/*" + blockCommentBodies[r.Intn(len(blockCommentBodies))] + "*/\n \n"
 					ops = append(ops, "block-comment-line")
 				}
 				out += []string{"", "\t", "    ", "\t\t "}[r.Intn(4)]
 				b.WriteString(out)
 			} else {
-				b.WriteString([]string{" ", "  ", "\t", " /* c */ "}[r.Intn(4)])
+				b.WriteString([]string{" ", "  ", "\t", " /*" + inlineCommentBodies[r.Intn(len(inlineCommentBodies))] + "*/ "}[r.Intn(4)])
 			}
 			continue
 		}
@@ -72,9 +72,10 @@ func relayout(r *rand.Rand, src string) (string, []string) {
 			// ... nor create or destroy a comment opener: nothing between "/" or "*" and a following "/" or "*", no comment glued to a "/"
 			slashy := (strings.HasSuffix(t, "/") || strings.HasSuffix(t, "*")) && (strings.HasPrefix(next, "/") || strings.HasPrefix(next, "*"))
 			if !(strings.ContainsAny(t, "=!<>&|+-*/%:") && strings.ContainsAny(next[:1], "=&|+-")) && !slashy && r.Intn(3) == 0 {
-				choices := []string{" ", "\t", "/**/", " /* x */"}
+				body := inlineCommentBodies[r.Intn(len(inlineCommentBodies))]
+				choices := []string{" ", "\t", "/*" + body + "*/", " /*" + body + "*/"}
 				if strings.HasSuffix(t, "/") {
-					choices = []string{" ", "\t", " /* x */"}
+					choices = []string{" ", "\t", " /*" + body + "*/"}
 				}
 				b.WriteString(choices[r.Intn(len(choices))])
 				ops = append(ops, "blank-around-punct")
@@ -102,6 +103,11 @@ func relayout(r *rand.Rand, src string) (string, []string) {
 	}
 	return out, ops
 }
+
+// what stands inside the inserted comments: plain text, nothing, look-alikes of comment delimiters, program text
+var inlineCommentBodies = []string{" c ", "", " x ", "/ x = 2 /", "*", "**", "/", " a * / b ", " // not a line comment ", " /* no nesting ", " \"q ", " `"}
+var blockCommentBodies = append([]string{" block ", " several\n lines\n\t", "\n", "/\nx = 2\n/"}, inlineCommentBodies...)
+var lineCommentBodies = []string{" only a comment", "", "/", "/ three slashes", " /* not a block comment", " x */ y", "* /", " print(1)", " \"", " `"}
 
 // layoutBases: programs whose layout is varied (accepted and rejected ones)
 func layoutBases(r *rand.Rand, n int) []string {
